@@ -101,7 +101,6 @@ Definition failing (d : data) : list string :=
   ++ (if per_method (names_not_used_types d) then [] else ["names_shadow_types"])
   ++ (if per_method (names_not_qualifiers d) then [] else ["names_qualifiers"])
   ++ (if forallb (fun k => forallb (names_not_tparams d k) (mk_methods k)) (d_mocks d) then [] else ["names_tparams"])
-  ++ (if forallb tparams_exported (d_mocks d) then [] else ["tparam_exported"])
   ++ (if forallb (decls_distinct d) (d_mocks d) then [] else ["method_name_clash"])
   ++ (if forallb (tparams_distinct d) (d_mocks d) then [] else ["tparams_clash"])
   ++ (if imports_distinct d then [] else ["alias_duplicate"])
@@ -199,8 +198,6 @@ Definition input_failing (i : input) (c : config) (args : list string) : list st
        then [] else ["constraint_unqualified_printer"])
    ++ (if forallb (fun l => match l with LIface ms _ _ _ => ms | _ => true end) ifaces
        then [] else ["not_a_method_set_interface"])
-   ++ (if forallb (fun l => match l with LIface _ ty _ _ => ty | _ => true end) ifaces
-       then [] else ["lookup_accepts_values"])
    ++ (let other := negb (String.eqb (find_pkg_path (in_dir_oracle i) (c_pkg_name c) (p_path (in_src i)))
                                      (p_path (in_src i))) in
        let mnames := flat_map (fun l => match l with LIface _ _ _ ms => map m_name ms | _ => [] end) ifaces in
